@@ -19,6 +19,42 @@ type MemFS struct {
 	callLog
 	mu    sync.Mutex
 	Files map[string]*MemFile // key: path without trailing slash ("/" for the root)
+	// DataErr makes Open return a reader that hands out its last bytes
+	// together with io.EOF in one Read (as the io.Reader contract allows, cf.
+	// iotest.DataErrReader) and that is not an io.ReadSeeker.
+	DataErr bool
+	// SmallReads makes Open return a reader that delivers at most 7 bytes per Read.
+	SmallReads bool
+}
+
+// dataErrReader returns the final bytes together with io.EOF.
+type dataErrReader struct {
+	b     []byte
+	chunk int
+}
+
+func (r *dataErrReader) Read(p []byte) (int, error) {
+	n := len(p)
+	if r.chunk > 0 && n > r.chunk {
+		n = r.chunk
+	}
+	if n >= len(r.b) {
+		n = copy(p, r.b)
+		r.b = nil
+		return n, io.EOF
+	}
+	copy(p, r.b[:n])
+	r.b = r.b[n:]
+	return n, nil
+}
+
+type smallReader struct{ r io.Reader }
+
+func (s smallReader) Read(p []byte) (int, error) {
+	if len(p) > 7 {
+		p = p[:7]
+	}
+	return s.r.Read(p)
 }
 
 type MemFile struct {
@@ -51,6 +87,16 @@ func (fs *MemFS) Open(ctx context.Context, name string) (io.ReadCloser, error) {
 	f := fs.Files[memKey(name)]
 	if f == nil {
 		return nil, webdav.NewHTTPError(404, fmt.Errorf("not found"))
+	}
+	if fs.DataErr {
+		chunk := 0
+		if fs.SmallReads {
+			chunk = 7
+		}
+		return ioutil.NopCloser(&dataErrReader{b: append([]byte(nil), f.Data...), chunk: chunk}), nil
+	}
+	if fs.SmallReads {
+		return ioutil.NopCloser(smallReader{bytes.NewReader(f.Data)}), nil
 	}
 	return ioutil.NopCloser(bytes.NewReader(f.Data)), nil
 }
